@@ -74,7 +74,7 @@ def snap(obj, kind):
         for l, c in obj.constraints.items():
             cons.append([lab(l), obs_model(c.lhs), c.sense.name, fs(c.rhs), bool(c.lhs.is_soft()),
                          fs(c.lhs.weight()) if c.lhs.is_soft() else None, c.lhs.penalty() if c.lhs.is_soft() else None])
-        return {"t": "cqm", "obj": obs_model(obj.objective), "cons": cons,
+        return {"t": "cqm", "obj": obs_model(obj.objective), "cons": cons, "discrete": sorted(lab(l) for l in obj.discrete),
                 "vi": [[lab(v), obj.vartype(v).name, fs(obj.lower_bound(v)), fs(obj.upper_bound(v))] for v in obj.variables]}
     if kind == 'ss':
         return {"t": "ss", "rec": obj.record.tobytes().hex(), "dt": str(obj.record.dtype), "labels": [lab(v) for v in obj.variables],
@@ -331,7 +331,7 @@ def run_case(c):
         for sseed in c["steps"]:
             r = wlib.Rng(sseed)
             owners = [i for i, h in enumerate(handles) if h.parent is None]
-            act = r.choice(['copy', 'copy', 'edit', 'edit', 'edit', 'view', 'move'])
+            act = r.choice(['copy', 'copy', 'edit', 'edit', 'edit', 'view', 'move', 'discrete'])
             if act == 'copy' and len(handles) >= 5:
                 act = 'edit'
             if act == 'copy':
@@ -392,6 +392,84 @@ def run_case(c):
                 w = (0 if h.obj.vartype is dimod.BINARY else 1) if h.kind == 'bqm' else 2   # (.binary of a BINARY model is the model itself)
                 handles.append(Handle(VIEWS[w](h.obj), 'bqm' if h.kind == 'bqm' else 'expr', parent=i, w=w))
                 emit(f"(OView {cnat(i)} {cnat(w)})")
+            elif act == 'discrete':
+                # a one-hot model of the caller handed to a CQM through add_discrete / add_discrete_from_comparison /
+                # add_discrete_from_model with every combination of check_overlaps and copy (given or defaulted)
+                cq_ = [i for i in owners if handles[i].kind == 'cqm']
+                if not cq_:
+                    if len(handles) < 5:
+                        handles.append(Handle(dimod.ConstrainedQuadraticModel(), 'cqm'))
+                        emit(f"(ONew {cnat(sid(snap(handles[-1].obj, 'cqm')))})")
+                    continue
+                if len(handles) >= 5:
+                    continue
+                ci = r.choice(cq_)
+                cqm = handles[ci].obj
+                tagd = r.randint(0, 9999)
+                dl = [('d', tagd, j) for j in range(r.randint(2, 4))]
+                if r.random() < 0.25 and len(cqm.variables):
+                    dl[0] = r.choice(list(cqm.variables))        # an existing variable: overlap / vartype checks come into play
+                mkind = r.choice(['qm', 'bqm'])
+                if mkind == 'qm':
+                    mod = dimod.QuadraticModel()
+                    for v in dl:
+                        mod.add_variable('BINARY', v)
+                        mod.set_linear(v, 1)
+                else:
+                    mod = dimod.BinaryQuadraticModel({v: 1 for v in dl}, {}, 0, 'BINARY')
+                handles.append(Handle(mod, mkind))
+                mi = len(handles) - 1
+                emit(f"(ONew {cnat(sid(snap(mod, mkind)))})")
+                api = r.choice(['add_discrete', 'add_discrete_from_comparison', 'add_discrete_from_model'])
+                kw = {}
+                co = r.choice([None, True, False])
+                cp = r.choice([None, True, False])
+                if co is not None:
+                    kw['check_overlaps'] = co
+                if cp is not None:
+                    kw['copy'] = cp
+                moves = cp is False
+                lbl = 'disc%d' % tagd
+                feats["op"] = "%s(check_overlaps=%s, copy=%s)" % (api, co, cp)
+                before_mi = sid(snap(mod, mkind))
+                ccl, mcl = clone(cqm, 'cqm'), clone(mod, mkind)
+                try:
+                    ccl.add_discrete_from_model(mcl, label=lbl, copy=True, check_overlaps=(True if co is None else co))
+                    eraised = False
+                except ValueError:
+                    eraised = True
+                exp_c = sid(snap(ccl, 'cqm'))
+                try:
+                    if api == 'add_discrete_from_model':
+                        cqm.add_discrete_from_model(mod, label=lbl, **kw)
+                    elif api == 'add_discrete_from_comparison':
+                        cqm.add_discrete_from_comparison(mod == 1, label=lbl, **kw)
+                    else:
+                        cqm.add_discrete(mod == 1, label=lbl, **kw)
+                    raised = False
+                except ValueError:
+                    raised = True
+                if raised != eraised:
+                    fail = fail or "add_discrete raises differently from add_discrete_from_model(copy=True) on clones"
+                d_now = dump()
+                if moves and not raised:
+                    d_mid = list(d_now)
+                    d_mid[mi] = before_mi
+                    hist.append(cpair(f"(OEdit {cnat(ci)} {cnat(exp_c)})", clist([cnat(x) for x in d_mid])))
+                    empty = dimod.BinaryQuadraticModel('BINARY', dtype=mod.dtype) if mkind == 'bqm' else dimod.QuadraticModel(dtype=mod.dtype)
+                    feats["moved_from"] = mkind
+                    hist.append(cpair(f"(OEdit {cnat(mi)} {cnat(sid(snap(empty, mkind)))})", clist([cnat(x) for x in d_now])))
+                    nl = ('r', tagd)
+                    if mkind == 'bqm':
+                        mod.add_variable(nl, 1.0); empty.add_variable(nl, 1.0)
+                    else:
+                        mod.add_variable('BINARY', nl); empty.add_variable('BINARY', nl)
+                        mod.add_linear(nl, 1.0); empty.add_linear(nl, 1.0)
+                    hist.append(cpair(f"(OEdit {cnat(mi)} {cnat(sid(snap(empty, mkind)))})", clist([cnat(x) for x in dump()])))
+                else:
+                    # copy=True (given or default), or the call raised: the caller's model is not an edited cell,
+                    # so the store model demands it bit-for-bit unchanged
+                    hist.append(cpair(f"(OEdit {cnat(ci)} {cnat(exp_c)})", clist([cnat(x) for x in d_now])))
             elif act == 'move':
                 cq_ = [i for i in owners if handles[i].kind == 'cqm']
                 # a CQM accepts neither object-dtype BQMs nor BQMs backed by a VartypeView (bqm.spin, or a
